@@ -17,7 +17,7 @@ using namespace c06;
 
 const char* property_id() { return "C06"; }
 unsigned case_timeout_s() { return 300; }
-uint64_t num_cases(bool thorough) { return thorough ? 150000 : 8000; }
+uint64_t num_cases(bool thorough) { return thorough ? 100000 : 8000; }
 void final_report() {}
 
 typedef std::allocator<uint8_t> AL;
